@@ -113,6 +113,7 @@ type VC struct {
 	qfacts    []Term
 	fieldCodes map[string]int
 	statics    map[string]int
+	lemmaName  string
 }
 
 func newVC(eng *Engine, fn *ssa.Function, con *Contract, known map[string]string, order []string) *VC {
@@ -713,7 +714,12 @@ func (vc *VC) oblige(st *State, kind, anchor string, goal Term, pos token.Pos) *
 	return o
 }
 
-func (vc *VC) fnName() string { return shortFn(vc.fn) }
+func (vc *VC) fnName() string {
+	if vc.fn == nil {
+		return vc.lemmaName
+	}
+	return shortFn(vc.fn)
+}
 
 func shortFn(fn *ssa.Function) string {
 	s := fn.String()
